@@ -32,9 +32,9 @@ RULE = (
     "distinct_nontrivial = distinct (program, dataset seed, run kind, sample set / order, interference pattern) runs whose sample columns were compared with the solo columns"
 )
 FAULT_KEYS = ["fit_interference", "prior_work", "permuted_runs", "subset_runs", "solo_runs", "pool_runs", "merged_runs", "multi_core_runs", "sample_in_two_pools"]
-PROBE_KEYS = ["gl_values_compared", "pool_file_interleaved", "columns_compared", "records_compared_pool_vs_merged", "unknown_alleles_named_by_others", "alt_renumbered", "refmasked_solo_only",
+PROBE_KEYS = ["exact_tie_skipped", "gl_values_compared", "pool_file_interleaved", "columns_compared", "records_compared_pool_vs_merged", "unknown_alleles_named_by_others", "alt_renumbered", "refmasked_solo_only",
               "programs_assemble", "programs_call", "programs_call_exact", "sample_in_two_pools", "fits_observed"]
-OPTIONAL_PROBES = {"quick": ("alt_renumbered", "refmasked_solo_only"), "thorough": ()}
+OPTIONAL_PROBES = {"quick": ("alt_renumbered", "refmasked_solo_only", "exact_tie_skipped"), "thorough": ()}
 COMPONENTS = dict(scn_c08.COMPONENTS)
 ASSUMPTIONS = [
     "read names are globally unique across samples (mates are merged by read name within a sample; the statement does not say what a reused name across pooled samples means)",
@@ -141,6 +141,37 @@ def per_seq(rec, col, key):
     if len(vals) != len(rec["seqs"]):
         return None
     return {rec["seqs"][i]: vals[i] for i in range(len(vals))}
+
+
+def exact_tie(program, a, b):
+    """Narrow relaxation (pool vs physically merged reads, call-exact only): the distinct reads arrive in a
+    different order, likelihood sums differ in the last bit, and the arg-max among EXACTLY tied genotypes may
+    flip.  Accepted only if GT is the only field that differs (GPM, SPM, every other statistic string-equal)
+    and, when GP is reported, both GTs carry the same (maximal) printed posterior."""
+    if program != "call-exact":
+        return False
+    keys = [k for k in a if k not in ("_raw", "GT")]
+    if set(a) != set(b) or any(a[k] != b[k] for k in keys):
+        return False
+    if "GP" in a and a["GP"] not in (".", ""):
+        import itertools
+        gp = a["GP"].split(",")
+        pl = len(a["GT"].replace("|", "/").split("/"))
+        n = 1
+        while len(sorted(itertools.combinations_with_replacement(range(n), pl))) < len(gp):
+            n += 1
+        gens = sorted(itertools.combinations_with_replacement(range(n), pl), key=lambda g: tuple(reversed(g)))
+        if len(gens) != len(gp):
+            return False
+        idx = {g: i for i, g in enumerate(gens)}
+        try:
+            ga = tuple(sorted(int(x) for x in a["GT"].replace("|", "/").split("/")))
+            gb = tuple(sorted(int(x) for x in b["GT"].replace("|", "/").split("/")))
+        except ValueError:
+            return False
+        vals = [float(v) for v in gp]
+        return gp[idx[ga]] == gp[idx[gb]] and float(gp[idx[ga]]) >= max(vals) - 1e-9
+    return True
 
 
 def per_genotype(rec, col, key, ploidy):
@@ -322,6 +353,9 @@ def run_batch(ctx, b):
                 else:
                     for p in pool_names:
                         if prec[lid]["cols"][p]["_raw"] != mrec[lid]["cols"][p]["_raw"]:
+                            if exact_tie(program, prec[lid]["cols"][p], mrec[lid]["cols"][p]):
+                                ctx.counters.inc("exact_tie_skipped")
+                                continue
                             raise Violation("pool_differs_from_merged",
                                             "pool %s (samples %r) at locus %s: pooled column differs from the column obtained from physically merged alignments" % (p, pools[p], lid),
                                             step=ctx.step, detail={"pool": prec[lid]["cols"][p]["_raw"][:200], "merged": mrec[lid]["cols"][p]["_raw"][:200]})
